@@ -8,7 +8,9 @@
 //!             occupies are read/write, the page before and the page after are PROT_NONE);
 //!          1: VolatileSlice over a FAKE range (unsafe VolatileSlice::new, never dereferenced),
 //!             used to reach the pointer-overflow branches near usize::MAX;
-//!          2/3/4: MmapRegion / GuestRegionMmap / GuestMemoryMmap over the listed regions.
+//!          2/3/4: MmapRegion / GuestRegionMmap / GuestMemoryMmap over the listed regions;
+//!          5/6/7: third-party `VolatileMemory` implementors (struct Odd), 8: a chunked one (struct
+//!             Chunked, the list then holds [chunk, gap]) - suite C01impl.
 //! Requests (code): see coq/Spec/C01.v.  A chain continues from the last accessor obtained.
 //! Observation of an accessor: pointer of its guard (or the reference itself) minus the root's
 //! base, its own len(), the guard's len(), the element count.  For real roots the first and the
@@ -16,10 +18,10 @@
 //! (SIGSEGV), which ./check reports with the case that did it.
 use crate::tok::n;
 use crate::{util, Rng, Suite, Tier, Tok};
-use std::sync::atomic::{AtomicU16, AtomicU32, AtomicU64, AtomicU8};
+use std::sync::atomic::{AtomicU16, AtomicU32, AtomicU64, AtomicU8, Ordering};
 use vm_memory::volatile_memory::Error as VErr;
 use vm_memory::{
-    Be64, ByteValued, GuestAddress, GuestMemory, GuestMemoryError, GuestMemoryMmap, GuestMemoryRegion,
+    AtomicInteger, Be64, ByteValued, GuestAddress, GuestMemory, GuestMemoryError, GuestMemoryMmap, GuestMemoryRegion,
     GuestRegionMmap, Le32, MemoryRegionAddress, MmapRegion, VolatileArrayRef, VolatileMemory, VolatileRef,
     VolatileSlice,
 };
@@ -39,8 +41,59 @@ const GUARD_PANIC: u128 = 1u128 << 64;
 type VS = VolatileSlice<'static, ()>;
 
 // ------------------------------------------------------------------ element types
-const TY_SIZE: [usize; 9] = [1, 2, 4, 8, 16, 0, 3, 4, 8];
-const TY_ALIGN: [usize; 9] = [1, 2, 4, 8, 16, 1, 1, 4, 8];
+// 0..8 the original nine; 9..16 wide and odd arrays (the crate provides ByteValued for arrays of up
+// to 32 elements); 17, 18 the value types of the third-party atomics Pair and Quad below
+const NTY: u64 = 19;
+const TY_SIZE: [usize; 19] = [1, 2, 4, 8, 16, 0, 3, 4, 8, 17, 24, 31, 32, 18, 20, 32, 256, 8, 16];
+const TY_ALIGN: [usize; 19] = [1, 2, 4, 8, 16, 1, 1, 4, 8, 1, 1, 1, 1, 2, 4, 8, 8, 4, 8];
+/// type ids that name an atomic type in get_atomic_ref, with the ATOMIC type's alignment
+const ATOMIC_TYS: [u64; 6] = [0, 1, 2, 3, 17, 18];
+fn atomic_align(ty: u64) -> u64 {
+    match ty {
+        17 => 8,
+        18 => 16,
+        _ => TY_ALIGN[ty as usize] as u64,
+    }
+}
+
+/// Third-party `AtomicInteger` implementors whose VALUE type is under-aligned relative to the
+/// atomic itself (the trait is public and `unsafe` precisely so that users can add their own; std's
+/// AtomicU64 / u64 on 32-bit x86 are such a pair too): an atomic REFERENCE must sit at a multiple
+/// of align_of::<Pair>() = 8 although align_of::<[u32; 2]>() = 4.  Only references are taken in
+/// this suite; load/store exist because the trait demands them.
+#[repr(C, align(8))]
+struct Pair(AtomicU64);
+// SAFETY: consists of one std atomic integer
+unsafe impl AtomicInteger for Pair {
+    type V = [u32; 2];
+    fn new(v: [u32; 2]) -> Self {
+        Pair(AtomicU64::new((v[0] as u64) | ((v[1] as u64) << 32)))
+    }
+    fn load(&self, order: Ordering) -> [u32; 2] {
+        let x = self.0.load(order);
+        [x as u32, (x >> 32) as u32]
+    }
+    fn store(&self, v: [u32; 2], order: Ordering) {
+        self.0.store((v[0] as u64) | ((v[1] as u64) << 32), order)
+    }
+}
+/// 16 bytes, alignment 16, value type [u64; 2] of alignment 8
+#[repr(C, align(16))]
+struct Quad(AtomicU64, AtomicU64);
+// SAFETY: consists of two std atomic integers
+unsafe impl AtomicInteger for Quad {
+    type V = [u64; 2];
+    fn new(v: [u64; 2]) -> Self {
+        Quad(AtomicU64::new(v[0]), AtomicU64::new(v[1]))
+    }
+    fn load(&self, order: Ordering) -> [u64; 2] {
+        [self.0.load(order), self.1.load(order)]
+    }
+    fn store(&self, v: [u64; 2], order: Ordering) {
+        self.0.store(v[0], order);
+        self.1.store(v[1], order)
+    }
+}
 
 macro_rules! with_ty {
     ($ty:expr, $T:ident => $e:expr) => {
@@ -54,6 +107,16 @@ macro_rules! with_ty {
             6 => { type $T = [u8; 3]; $e }
             7 => { type $T = Le32; $e }
             8 => { type $T = Be64; $e }
+            9 => { type $T = [u8; 17]; $e }
+            10 => { type $T = [u8; 24]; $e }
+            11 => { type $T = [u8; 31]; $e }
+            12 => { type $T = [u8; 32]; $e }
+            13 => { type $T = [u16; 9]; $e }
+            14 => { type $T = [u32; 5]; $e }
+            15 => { type $T = [u64; 4]; $e }
+            16 => { type $T = [u64; 32]; $e }
+            17 => { type $T = [u32; 2]; $e }
+            18 => { type $T = [u64; 2]; $e }
             _ => panic!("bad type id"),
         }
     };
@@ -65,6 +128,8 @@ macro_rules! with_atomic {
             1 => { type $T = AtomicU16; $e }
             2 => { type $T = AtomicU32; $e }
             3 => { type $T = AtomicU64; $e }
+            17 => { type $T = Pair; $e }
+            18 => { type $T = Quad; $e }
             _ => panic!("bad atomic type id"),
         }
     };
@@ -153,9 +218,39 @@ impl VolatileMemory for Odd {
     }
 }
 
+/// A CHUNKED `VolatileMemory` implementor the crate did not write (root kind 8): `len` logical
+/// bytes that physically are chunks of `c` bytes separated by gaps of `g >= 1` bytes which do NOT
+/// belong to the memory (logical byte i lives at base + (i/c)*(c+g) + i%c).  A `VolatileSlice` is
+/// contiguous, so `get_slice(o, n)` answers - as the trait documentation allows - the part of the
+/// request that lies in the chunk of `o`; requests past `len` are refused.  A provided method that
+/// fabricates an accessor of size_of::<T>() bytes from a shorter slice would reach into the gap.
+/// The address range is never dereferenced.  Transcribed as `chunk_gs` in coq/Suite/C01impl.v.
+struct Chunked {
+    base: usize,
+    len: usize,
+    c: usize,
+    g: usize,
+}
+impl VolatileMemory for Chunked {
+    type B = ();
+    fn len(&self) -> usize {
+        self.len
+    }
+    fn get_slice(&self, offset: usize, count: usize) -> Result<VolatileSlice<'_, ()>, VErr> {
+        if (offset as u128) + (count as u128) > self.len as u128 {
+            return Err(VErr::OutOfBounds { addr: offset });
+        }
+        let phys = (offset / self.c) * (self.c + self.g) + offset % self.c;
+        let n = std::cmp::min(count, self.c - offset % self.c);
+        // SAFETY: never dereferenced (fake parent); the range lies inside one chunk
+        Ok(unsafe { VolatileSlice::new((self.base + phys) as *mut u8, n) })
+    }
+}
+
 #[derive(Clone, Copy)]
 enum Acc {
     Odd(&'static Odd),
+    Chunked(&'static Chunked),
     Slice(&'static VS),
     Ref(&'static dyn DynRef),
     Arr(&'static dyn DynArr),
@@ -392,6 +487,10 @@ fn request(ar: &mut Arena, cur: Acc, code: u64, ty: u64, a: usize, b: usize) -> 
             0 => Out::Err(7),
             _ => vm_request(ar, m, code, ty, a, b),
         },
+        Acc::Chunked(m) => match code {
+            0 => Out::Err(7),
+            _ => vm_request(ar, m, code, ty, a, b),
+        },
         Acc::Ref(r) => match code {
             12 => Out::New(ar.slice(r.to_slice())),
             _ => Out::Err(7),
@@ -440,11 +539,16 @@ fn exec(case: &[Tok]) -> Vec<Tok> {
     for (i, (s, a)) in TY_SIZE.iter().zip(TY_ALIGN.iter()).enumerate() {
         with_ty!(i as u64, T => assert!(std::mem::size_of::<T>() == *s && std::mem::align_of::<T>() == *a));
     }
+    for &t in &ATOMIC_TYS {
+        // the atomic has the size of its value type (table) and ITS OWN alignment
+        with_atomic!(t, T => assert!(std::mem::size_of::<T>() == TY_SIZE[t as usize] && std::mem::align_of::<T>() as u64 == atomic_align(t)));
+    }
     let mut arena = Arena::default();
     let mut _real: Option<RealMap> = None;
     let mut gregions: Vec<*mut GuestRegionMmap<()>> = Vec::new();
     let mut gmem: Option<*mut GuestMemoryMmap<()>> = None;
     let mut odd: Option<*mut Odd> = None;
+    let mut chunked: Option<*mut Chunked> = None;
     let mut root = Root { kind: rk, hosts: vec![], gbases: vec![], touch: rk == 0 };
     let mut cur: Acc = match rk {
         0 | 1 => {
@@ -489,6 +593,17 @@ fn exec(case: &[Tok]) -> Vec<Tok> {
             odd = Some(m);
             Acc::Odd(unsafe { &*m })
         }
+        8 => {
+            assert!(regs.len() == 2);
+            let (c, g) = (regs[0] as usize, regs[1] as usize);
+            assert!(c >= 1 && g >= 1 && len <= isize::MAX as usize);
+            let span = ((len / c) as u128 + 1) * (c as u128 + g as u128);
+            assert!((base as u128) + span < 1u128 << 64);
+            root.hosts.push((base, span as usize));
+            let m = Box::into_raw(Box::new(Chunked { base, len, c, g }));
+            chunked = Some(m);
+            Acc::Chunked(unsafe { &*m })
+        }
         _ => panic!("bad root kind"),
     };
     let mut ridx = 0usize;
@@ -497,7 +612,7 @@ fn exec(case: &[Tok]) -> Vec<Tok> {
         let o = t.l();
         assert!(o.len() == 4 && o[2] < 1u128 << 64 && o[3] < 1u128 << 64);
         let (code, ty, a, b) = (o[0] as u64, o[1] as u64, o[2] as usize, o[3] as usize);
-        assert!(ty <= 8);
+        assert!(ty < NTY);
         let at_gmem = matches!(cur, Acc::GMem(_));
         match util::catch(|| request(&mut arena, cur, code, ty, a, b)) {
             None => out.push(err_obs(5)),
@@ -527,6 +642,9 @@ fn exec(case: &[Tok]) -> Vec<Tok> {
         drop(unsafe { Box::from_raw(g) });
     }
     if let Some(m) = odd {
+        drop(unsafe { Box::from_raw(m) });
+    }
+    if let Some(m) = chunked {
         drop(unsafe { Box::from_raw(m) });
     }
     let _ = root.kind;
@@ -611,7 +729,7 @@ fn rand_op(rng: &mut Rng, k: u64, len: u64, base: u64, nelem: u64, valid_bias: b
         7 => 16 + rng.below(3),
         _ => rng.below(21),
     };
-    let ty = if code == 6 { rng.below(4) } else { rng.below(9) };
+    let ty = if code == 6 { *rng.pick(&ATOMIC_TYS) } else if rng.chance(2, 3) { rng.below(9) } else { 9 + rng.below(NTY - 9) };
     let sz = TY_SIZE[ty as usize] as u64;
     let bs = bset(len, base);
     let small = |rng: &mut Rng| if len == 0 { 0 } else { rng.below(len + 1) };
@@ -621,6 +739,8 @@ fn rand_op(rng: &mut Rng, k: u64, len: u64, base: u64, nelem: u64, valid_bias: b
             13 => if nelem == 0 { 0 } else { rng.below(nelem) },
             4 | 5 | 6 | 15 => {
                 let x = small(rng);
+                // (for the value type: an under-aligned value type leaves atomic requests at
+                // addresses that are aligned for the value but not for the atomic)
                 let al = TY_ALIGN[ty as usize] as u64;
                 // round so that base + x is aligned most of the time
                 if rng.chance(3, 4) { x.wrapping_sub((base.wrapping_add(x)) % al) } else { x }
@@ -722,7 +842,7 @@ fn gen_single(rng: &mut Rng, tier: Tier, emit: &mut dyn FnMut(Vec<Tok>)) {
                     if let Tok::L(l) = &mut o {
                         l[0] = code as u128;
                         if code == 6 {
-                            l[1] %= 4;
+                            l[1] = ATOMIC_TYS[(l[1] % 6) as usize] as u128;
                         }
                     }
                     emit(case_slice(kind, base, len, vec![o]));
@@ -777,6 +897,50 @@ fn gen_single(rng: &mut Rng, tier: Tier, emit: &mut dyn FnMut(Vec<Tok>)) {
             }
         }
     }
+    gen_wide_and_atomic(quick, emit);
+}
+
+/// under-aligned value types: the third-party atomics Pair ([u32;2], atomic alignment 8, value
+/// alignment 4) and Quad ([u64;2], 16 / 8) and their value types at EVERY offset of real parents at
+/// all 16 base alignments - an atomic reference at a multiple of the value alignment only is a
+/// violation; wide element types (17..256 bytes) at every offset of parents around their size
+fn gen_wide_and_atomic(quick: bool, emit: &mut dyn FnMut(Vec<Tok>)) {
+    let p = (REAL_LO + PAGE) as u64;
+    for &len in if quick { &[8u64, 16, 17, 40][..] } else { &[0u64, 7, 8, 9, 15, 16, 17, 24, 32, 40, 64][..] } {
+        for shift in 0..16u64 {
+            for base in [p + shift, p + 3 * PAGE as u64 - len - shift] {
+                if quick && base != p + shift && shift % 4 != 0 {
+                    continue;
+                }
+                for a in 0..=len + 1 {
+                    for ty in [17u64, 18] {
+                        emit(case_slice(0, base, len, vec![op(6, ty, a, 0)]));
+                        emit(case_slice(0, base, len, vec![op(4, ty, a, 0)]));
+                        emit(case_slice(0, base, len, vec![op(5, ty, a, 0)]));
+                    }
+                }
+            }
+        }
+    }
+    for ty in 9..17u64 {
+        let sz = TY_SIZE[ty as usize] as u64;
+        for len in [sz - 1, sz, sz + 1, sz + 9, 2 * sz + 3] {
+            for shift in if quick { vec![0u64, 1, 4, 8] } else { (0..16).collect::<Vec<u64>>() } {
+                let base = p + 3 * PAGE as u64 - len - shift;
+                let mut args: Vec<u64> = (0..=std::cmp::min(len - sz.min(len) + 2, 12)).collect();
+                args.extend([len - sz.min(len), len, u64::MAX]);
+                for &a in &args {
+                    for code in [2u64, 4, 5] {
+                        emit(case_slice(0, base, len, vec![op(code, ty, a, 0)]));
+                    }
+                    emit(case_slice(0, base, len, vec![op(15, ty, a, sz)]));
+                    for nn in [0u64, 1, 2, 3] {
+                        emit(case_slice(0, base, len, vec![op(3, ty, a, nn), op(13, 0, nn.saturating_sub(1), 0)]));
+                    }
+                }
+            }
+        }
+    }
 }
 
 /// third-party implementors: every provided trait method x element type x boundary offsets /
@@ -814,6 +978,9 @@ fn gen_impl(rng: &mut Rng, tier: Tier, emit: &mut dyn FnMut(Vec<Tok>)) {
                     if ty < 4 {
                         emit(case_slice(k, base, len, vec![op(6, ty, a, 0)]));
                     }
+                    if ty < 2 {
+                        emit(case_slice(k, base, len, vec![op(6, 17 + ty, a, 0)]));
+                    }
                     let sz = TY_SIZE[ty as usize] as u64;
                     for &nn in &nset(len.saturating_sub(std::cmp::min(a, len)), sz) {
                         if !quick || rng.chance(1, 6) {
@@ -830,6 +997,111 @@ fn gen_impl(rng: &mut Rng, tier: Tier, emit: &mut dyn FnMut(Vec<Tok>)) {
             }
             // the own get_slice: answered "not applicable" by the harness, not judged
             emit(case_slice(k, base, len, vec![op(0, 0, 0, len)]));
+        }
+    }
+    gen_impl_chunked(rng, quick, emit);
+}
+
+/// chunked implementors: (logical length, chunk, gap) x base alignments x every provided method x
+/// element type x every offset around the chunk boundaries
+fn gen_impl_chunked(rng: &mut Rng, quick: bool, emit: &mut dyn FnMut(Vec<Tok>)) {
+    let case_chunk = |base: u64, len: u64, c: u64, g: u64, ops: Vec<Tok>| {
+        let mut v = vec![n(crate::build_mode()), n(8u8), n(base), n(len), Tok::L(vec![c as u128, g as u128])];
+        v.extend(ops);
+        v
+    };
+    // (L, c, g): the demonstration of seed C01-7 first; a partial last chunk; chunk sizes on
+    // both sides of the element sizes; gaps smaller and larger than an element
+    let mut geos: Vec<(u64, u64, u64)> = vec![(24, 12, 4), (16, 8, 8), (20, 8, 1), (7, 3, 5), (32, 16, 16), (48, 20, 12)];
+    if !quick {
+        geos.extend([(64, 32, 32), (9, 1, 1), (40, 24, 8), (0, 4, 4), (4096, 4096, 4096), (8192, 4096, 16)]);
+    }
+    let big: [(u64, u64, u64, u64); 3] = [(4096, 1 << 33, 1 << 20, 1 << 12), (8, i64::MAX as u64 - 7, 1 << 62, 8), (4099, 65536, 4096, 4096)];
+    for &(len, c, g) in &geos {
+        for shift in if quick { vec![0u64, 4, 1] } else { vec![0u64, 1, 2, 4, 8] } {
+            let base = 0x7100_0000_0000 + 4096 - shift;
+            emit(case_chunk(base, len, c, g, vec![op(1, 0, 0, 0)]));
+            emit(case_chunk(base, len, c, g, vec![op(0, 0, 0, len)]));
+            let mut offs: Vec<u64> = if len <= 64 { (0..=len + 2).collect() } else { bset(len, base) };
+            if len > 64 {
+                for k in 0..=20u64 {
+                    offs.push(c.wrapping_sub(k));
+                    offs.push(c + k);
+                }
+            }
+            offs.extend([u64::MAX, u64::MAX - 7, 1 << 63]);
+            for &a in &offs {
+                for ty in 0..9u64 {
+                    for code in [2u64, 4, 5] {
+                        let mut ops = vec![op(code, ty, a, 0)];
+                        if code == 2 && rng.chance(1, 4) {
+                            ops.push(op(12, 0, 0, 0));
+                            ops.push(op(8, 0, rng.below(3), rng.below(4)));
+                        }
+                        emit(case_chunk(base, len, c, g, ops));
+                    }
+                    if ty < 4 {
+                        emit(case_chunk(base, len, c, g, vec![op(6, ty, a, 0)]));
+                    }
+                    if ty < 2 {
+                        emit(case_chunk(base, len, c, g, vec![op(6, 17 + ty, a, 0)]));
+                    }
+                    if ty < 3 && c >= 16 {
+                        // wide elements: [u8;17], [u16;9], [u64;4]
+                        let w = [9u64, 13, 15][ty as usize];
+                        emit(case_chunk(base, len, c, g, vec![op(2, w, a, 0)]));
+                        emit(case_chunk(base, len, c, g, vec![op(4 + (a & 1), w, a, 0)]));
+                    }
+                    let sz = TY_SIZE[ty as usize] as u64;
+                    // element counts around what is left of the chunk and of the memory
+                    let left_chunk = if a <= len { c - a % c } else { 0 };
+                    let mut ns = vec![0u64, 1, 2];
+                    for room in [left_chunk, len.saturating_sub(a)] {
+                        let q = room / sz.max(1);
+                        ns.extend([q, q + 1, q.saturating_sub(1)]);
+                    }
+                    ns.sort();
+                    ns.dedup();
+                    for &nn in &ns {
+                        if !quick || rng.chance(1, 3) {
+                            let mut ops = vec![op(3, ty, a, nn)];
+                            if rng.chance(1, 4) {
+                                ops.push(op(13, 0, rng.below(nn + 2), 0));
+                            } else if rng.chance(1, 4) {
+                                ops.push(op(14, 0, 0, 0));
+                            }
+                            emit(case_chunk(base, len, c, g, ops));
+                        }
+                    }
+                }
+            }
+        }
+    }
+    for &(base, len, c, g) in &big {
+        let mut offs = bset(len, base);
+        for k in 0..=17u64 {
+            offs.push(c - k);
+            offs.push(c + k);
+            offs.push(2 * c - k);
+        }
+        for &a in &offs {
+            for ty in 0..9u64 {
+                if quick && !rng.chance(1, 3) {
+                    continue;
+                }
+                for code in [2u64, 4, 5] {
+                    emit(case_chunk(base, len, c, g, vec![op(code, ty, a, 0)]));
+                }
+                if ty < 4 {
+                    emit(case_chunk(base, len, c, g, vec![op(6, ty, a, 0)]));
+                }
+                let sz = TY_SIZE[ty as usize] as u64;
+                let left_chunk = if a <= len { c - a % c } else { 0 };
+                let q = left_chunk / sz.max(1);
+                for nn in [q, q + 1] {
+                    emit(case_chunk(base, len, c, g, vec![op(3, ty, a, nn)]));
+                }
+            }
         }
     }
 }
